@@ -680,3 +680,62 @@ def solve_contract(clip):
         requires=requires, ensures=ensures, instances=instances, callees=[loop_as_callee],
         doc="checkpoint loop + scan over checkpoints (loop rules): every requested time is reported once, in order, within eps; counts = accepted attempts",
     )
+
+
+# --------------------------------------------------------------------------------------
+# solve_adaptive_terminal_values == last entry of solve_adaptive_save_at on [t0, t1]   (C05)
+# --------------------------------------------------------------------------------------
+
+REC: dict = {}
+
+
+def terminal_values_contract():
+    def wrap(target):
+        def f(u, t0, t1, atol, rtol, dt0, eps, damp, template_t, template_u):
+            import probdiffeq._ivpsolve.solvers_via_adaptive_steps as M
+
+            old = M.solve_adaptive_save_at
+            REC.clear()
+
+            def fake_save_at(**kw):
+                REC["ctor"] = kw
+
+                def solve(u_, save_at, atol, rtol, dt0, eps, damp):
+                    REC["call"] = dict(u=u_, save_at=save_at, atol=atol, rtol=rtol, dt0=dt0, eps=eps, damp=damp)
+                    return _sol(template_t, template_t * 0 + 3.0, template_u)  # an arbitrary stacked solution
+
+                return solve
+
+            M.solve_adaptive_save_at = fake_save_at
+            try:
+                solver, error, control = AbsSolver(), AbsError(), AbsControl()
+                solve = target(solver, error, control=control, clip_dt=True, while_loop="WL")
+                out = solve(u, t0=t0, t1=t1, atol=atol, rtol=rtol, dt0=dt0, eps=eps, damp=damp)
+            finally:
+                M.solve_adaptive_save_at = old
+            c, k = REC["ctor"], REC["call"]
+            passed = jnp.asarray(c["solver"] is solver and c["error"] is error and c["control"] is control and c["clip_dt"] is True and c["while_loop"] == "WL" and c["warn"] is False)
+            return out.t, out.u, out.num_steps, k["save_at"], k["u"], jnp.stack([k["atol"], k["rtol"], k["dt0"], k["eps"], k["damp"]]), passed
+
+        return f
+
+    def ensures(res, u, t0, t1, atol, rtol, dt0, eps, damp, template_t, template_u):
+        t_out, u_out, ns_out, save_at, u_in, tols, passed = res
+        return [
+            eq("checkpoints_are_[t0,t1]", save_at, jnp.stack([t0, t1])),
+            eq("initial_value_passed_on", u_in, u),
+            eq("tolerances_and_options_passed_on", tols, jnp.stack([atol, rtol, dt0, eps, damp])),
+            holds("solver_error_control_clip_while_passed_on_and_warning_disabled", passed),
+            eq("time_is_last_entry", t_out, template_t[-1]),
+            eq("value_is_last_entry", u_out, template_u[-1]),
+            eq("step_count_is_last_entry", ns_out, 3.0),
+        ]
+
+    def instances(tier):
+        def make(rng):
+            sc = lambda lo=0.1, hi=1.0: jnp.asarray(rng.uniform(lo, hi))
+            return (jnp.asarray(rng.normal(size=(1,))), sc(), sc(1.5, 2.0), sc(), sc(), sc(), sc(), sc(), jnp.asarray(rng.normal(size=(2,))), jnp.asarray(rng.normal(size=(2, 1)))), {}
+        return [Instance("abstract", make)]
+
+    return Contract(name=f"{MOD}:solve_adaptive_terminal_values", module=MOD, qualname="solve_adaptive_terminal_values", wrap=wrap, ensures=ensures, instances=instances,
+                    doc="the terminal-value routine is the last entry of the checkpointed routine on save_at = [t0, t1] with every argument passed through and the suitability warning disabled")
